@@ -62,7 +62,7 @@ impl From<Array> for Val {
     }
 }
 
-#[derive(Clone, Debug, Hash, PartialEq, Eq)]
+#[derive(Clone, Debug, Hash, PartialEq, Eq, PartialOrd, Ord)]
 enum DictKey {
     Undefined,
     Null,
@@ -210,7 +210,13 @@ impl Array {
     }
 
     fn val_iter(&self) -> impl Iterator<Item = &Val> {
-        self.arr.iter().chain(self.dict.values())
+        // the dictionary part in key order: hash order differs from run to run
+        self.arr.iter().chain(
+            self.dict
+                .iter()
+                .sorted_unstable_by(|a, b| a.0.cmp(b.0))
+                .map(|(_, v)| v),
+        )
     }
 
     fn is_empty(&self) -> bool {
